@@ -4,7 +4,8 @@ spec:     specs/c10_delayed_queue  DpqP (property), DpqI (PlusCal, implementatio
 binding:  harness/cmd/c10 drives the real queue.NewInMemoryDelayedPriorityQueue (Enqueue) and StrategyBasedQueuePlugin.OnRequest
           on the lock-step clock; yield point dpq.before_park holds a goroutine between mutex.Unlock() and its select
 """
-import json, os
+import json, os, re
+from c12 import witnesses, coverage
 from vlib import Broken, read_ndjson, validate_history_trace, parallel, tlc_vh_lines, split_histories
 
 SPEC = "c10_delayed_queue"
@@ -16,6 +17,9 @@ MC = {"MC_dpq_kf": {"prio": F(1, 0, 1), "ttl": F(3, 3, 5), "quota": 1, "w": 2, "
 GENS = {"GenC10_a": {"prio": F(1, 0, 1, 2, 0, 1), "ttl": F(3, 4, 6, 2, 5, 8), "quota": 1, "w": 2, "qsize": 2},
         "GenC10_b": {"prio": F(0, 0, 0, 0, 0, 0), "ttl": F(2, 4, 6, 4, 2, 8), "quota": 2, "w": 4, "qsize": 3},
         "GenC10_c": {"prio": F(2, 1, 0, 2, 1, 0), "ttl": F(4, 4, 2, 6, 6, 2), "quota": 1, "w": 4, "qsize": 2}}
+
+
+UNREPRODUCED = []
 
 
 def conf(c, mode):
@@ -157,19 +161,25 @@ def judge(ctx, binary, scripts, traces, tag, seen):
                 if nontrivial(h):
                     ctx.cov["distinct_nontrivial"] += 1
         for rej in rejected:
+            if len(ctx.violations) >= 12:       # enough confirmed witnesses: do not spend the budget on more of the same
+                break
             hi = hs.index(rej["hist"])
             rej["script"] = sc["histories"][hi]
             w = witness_of(rej)
             script = [{"config": sc["config"], "histories": [sc["histories"][hi]]}]
             reproduced = False
-            for attempt in range(20):       # goroutine scheduling inside one instant is not under the driver's control
+            for attempt in range(20 if w["concurrent"] else 2):       # goroutine scheduling inside one instant is not under the driver's control
                 t2 = execute(ctx, binary, script, "%s-repro" % tag)[0]
                 a2, r2, _ = validate_history_trace(ctx, SPEC, "DpqTrace", t2, tag="%s-repro" % tag, deque=True)
                 if r2:
                     reproduced = True
                     break
             if not reproduced:
-                raise Broken("rejection not reproduced in 20 attempts (%s): %s" % (tag, json.dumps(w)))
+                # schedule-dependent and not reproducible: never reported as a violation; the run is broken (exit 2)
+                # unless other, reproducible violations are reported
+                ctx.notes.append("UNREPRODUCED (%s): %s" % (tag, json.dumps(w)[:400]))
+                UNREPRODUCED.append(w)
+                continue
             ctx.violation(w, {"script": script, "trace": [rej["config"]] + rej["hist"], "rejected_at": rej["at"]})
     # conformance of the implementation-shaped model (never a verdict): repaired hand-off first, then the pinned one
     def drift(it):
@@ -222,15 +232,19 @@ def run(ctx):
 
     # (1) exhaustive: the repaired hand-off refines P; the pinned hand-off (KF_C10_LostHandoff) must be refuted and its
     #     counterexamples become directed schedules for the real code
-    good = [("MC_dpq_a", "I=>P 3 requests, quota 1, window 2, queue 2"), ("MC_dpq_b", "I=>P 3 requests equal priority, quota 2, queue 1")]
+    good = [("MC_dpq_a", "I=>P 3 requests, quota 1, window 2, queue 2"), ("MC_dpq_b", "I=>P 3 requests equal priority, quota 1, queue 1 (full queue reached)")]
     if T:
         good.append(("MC_dpq_large", "I=>P 4 requests, quota 2, queue 2"))
     bad = [("MC_dpq_kf", "pinned hand-off must violate P"), ("MC_dpq_kf_strand", "pinned hand-off must strand a popped request")]
     def mc(it):
         if it in good:
-            return ctx.tlc_exhaustive(sd, "MC_C10", it[0] + ".cfg", workers=4 if not T else 8, timeout=3000, label=it[1])
+            return ctx.tlc_exhaustive(sd, "MC_C10", it[0] + ".cfg", workers=4 if not T else 8, timeout=3000, label=it[1],
+                                      extra=["-coverage", "1"] if T else [])
         return ctx.tlc(sd, "MC_C10", it[0] + ".cfg", workers=1, timeout=300, label="non-vacuity: " + it[1])
     rs = parallel(mc, good + bad, n=4)
+    if T:
+        witnesses(ctx, sd, "MC_C10", "MC_dpq_wit.cfg", ["WitRelease", "WitTtl", "WitFull", "WitBuffered", "WitTtlVsSignal", "WitSkipGone"])
+        coverage(ctx, [r for it, r in zip(good + bad, rs) if it in good], ["e1", "e2", "e3", "e4", "r0", "r1", "r2", "r3", "c0"])
     scripts, names = [], []
     for it, r in zip(good + bad, rs):
         if it in bad:
@@ -296,7 +310,9 @@ def run(ctx):
     traces = execute(ctx, binary, scripts, "rand")
     ctx.sample({"kind": "recorded-trace", "events": traces[0][:16]})
     judge(ctx, binary, scripts, traces, "rand", seen)
-    if ctx.cov["distinct_nontrivial"] < 20:
+    if UNREPRODUCED and not ctx.violations:
+        raise Broken("%d rejection(s) by the specification could not be reproduced: %s" % (len(UNREPRODUCED), json.dumps(UNREPRODUCED[0])[:600]))
+    if ctx.cov["distinct_nontrivial"] < 20 and not ctx.violations:
         raise Broken("only %d non-trivial histories: the run does not exercise the property" % ctx.cov["distinct_nontrivial"])
 
     # (5) binding self-test (thorough): corrupted recordings must be rejected
